@@ -365,6 +365,12 @@ theorem logical_sums (ops : List Op) :
 
 /-! ### 4. counters -/
 
+theorem CVal.json_of_finite (v : CVal) (h : v.isFinite = true) : v.json = v := by
+  simp [CVal.json, h]
+
+theorem CVal.intPart_json (v : CVal) : v.json.intPart = v.intPart := by
+  cases v <;> simp only [CVal.json] <;> split <;> simp_all [CVal.intPart, CVal.isFinite]
+
 structure CInv (c : CounterSamples) (rows : List CRow) : Prop where
   time : c.time = rows.map (·.t)
   count : c.count = rows.map (·.value)
@@ -375,7 +381,7 @@ structure CInv (c : CounterSamples) (rows : List CRow) : Prop where
 theorem cinv_new : CInv CounterSamples.new [] := by
   constructor <;> simp [CounterSamples.new]
 
-theorem caddSample_inv (c : CounterSamples) (rows : List CRow) (h : CInv c rows) (t : Nat) (v : Int)
+theorem caddSample_inv (c : CounterSamples) (rows : List CRow) (h : CInv c rows) (t : Nat) (v : CVal)
     (n : Nat) : CInv (c.addSample t v n) (rows ++ [⟨t, v, n⟩]) := by
   obtain ⟨ts, ns, cs, srt, lts⟩ := c
   obtain ⟨h1, h2, h3, h5, h6⟩ := h
@@ -395,17 +401,22 @@ theorem caddSample_inv (c : CounterSamples) (rows : List CRow) (h : CInv c rows)
       simp only [List.concat_eq_append, List.map_append, List.map_cons, List.map_nil] at hp ⊢
       exact (pairwise_concat_le _ _ t hp (by omega)).2
 
-theorem runC_inv_from (ops : List COp) (c : CounterSamples) (rows : List CRow) (h : CInv c rows) :
-    CInv (ops.foldl (fun c op => c.addSample op.t op.value op.n) c) (rows ++ logicalC ops) := by
+theorem runCFrom_inv (ops : List COp) (c : CounterSamples) (rows : List CRow) (h : CInv c rows) :
+    CInv (runCFrom c ops) (rows ++ rowsC ops) := by
+  unfold runCFrom
   induction ops generalizing c rows with
-  | nil => simpa [logicalC] using h
+  | nil => simpa [rowsC] using h
   | cons op ops ih =>
     have := ih _ _ (caddSample_inv c rows h op.t op.value op.n)
-    simpa [logicalC] using this
+    simpa [rowsC] using this
 
-theorem runC_inv (ops : List COp) : CInv (runC ops) (logicalC ops) := by
-  have := runC_inv_from ops _ _ cinv_new
+theorem runC_inv (ops : List COp) : CInv (runC ops) (rowsC ops) := by
+  have := runCFrom_inv ops _ _ cinv_new
   simpa [runC] using this
+
+theorem runCFrom_append (c : CounterSamples) (a b : List COp) :
+    runCFrom c (a ++ b) = runCFrom (runCFrom c a) b := by
+  simp [runCFrom, List.foldl_append]
 
 theorem mkCRows_map (rows : List CRow) :
     mkCRows (rows.map (·.t)) (rows.map (·.value)) (rows.map (·.n)) = rows := by
@@ -413,12 +424,14 @@ theorem mkCRows_map (rows : List CRow) :
   | nil => rfl
   | cons r rs ih => simp [mkCRows, ih]
 
+/-- `rows'` is a rearrangement of the stored rows; the output shows `rows'` with `CVal.json` applied to the
+values -/
 theorem cserializeWith_rows (c : CounterSamples) (rows : List CRow) (h : CInv c rows) (idx : List Nat)
     (hv : ValidIdx c.time idx) :
     ∃ (rows' : List CRow) (ds : List Nat), rows'.Perm rows ∧ (rows'.map (·.t)).Pairwise (· ≤ ·) ∧
       permute c.time idx = some (rows'.map (·.t)) ∧
       deltasFrom 0 (rows'.map (·.t)) = some ds ∧ runningSums 0 ds = rows'.map (·.t) ∧
-      c.serializeWith idx = some ⟨rows'.map (·.value), rows'.map (·.n), ds⟩ := by
+      c.serializeWith idx = some ⟨rows'.map (·.value.json), rows'.map (·.n), ds⟩ := by
   obtain ⟨hperm, ts, hts, hsorted⟩ := hv
   rw [h.time, List.length_map] at hperm
   obtain ⟨rows', hp, hpr⟩ := permute_perm rows idx hperm
@@ -429,7 +442,7 @@ theorem cserializeWith_rows (c : CounterSamples) (rows : List CRow) (h : CInv c 
   obtain ⟨ds, hd1, hd2⟩ := deltasFrom_sorted _ 0 hsorted (fun _ _ => Nat.zero_le _)
   refine ⟨rows', ds, hpr, hsorted, ht, hd1, hd2, ?_⟩
   simp only [CounterSamples.serializeWith, ht, h.count, h.number, permute_map, hp,
-    Option.map_some, hd1]
+    Option.map_some, hd1, List.map_map, Function.comp_def]
 
 theorem cserialize_eq (c : CounterSamples) (rows : List CRow) (h : CInv c rows) :
     ∃ idx, ValidIdx c.time idx ∧ c.serialize = c.serializeWith idx := by
